@@ -213,6 +213,53 @@ example : xtermRgb 16 = (0, 0, 0) ∧ xtermRgb 196 = (255, 0, 0) ∧ xtermRgb 23
     xtermRgb 233 = (18, 18, 18) ∧ xtermRgb 253 = (218, 218, 218) ∧ G.pal256[233]? = some (18, 18, 18) := by
   decide +kernel
 
+/-! ## 11d. three-digit hex colours -/
+
+/-- no ANSI colour name / alias has three characters (so '#rgb' is never read as '#' + name) -/
+def NoShortNames (T : Tables) : Prop := (∀ n ∈ T.ansiNames, n.length ≠ 3) ∧ (∀ kv ∈ T.aliases, kv.1.length ≠ 3)
+instance (T : Tables) : Decidable (NoShortNames T) := by unfold NoShortNames; infer_instance
+
+/-- **`parse_color('#rgb')` doubles every digit** (the CSS rule): 'rrggbb', for all hex digits r g b -/
+theorem parseColor_hex3_any (T : Tables) (hS : StyleOk T) (hN : NoShortNames T) (r g b : Char)
+    (hr : (hexVal? r).isSome = true) (hg : (hexVal? g).isSome = true) (hb : (hexVal? b).isSome = true) :
+    parseColor T ['#', r, g, b] = some [r, r, g, g, b, b] := by
+  have hn1 : T.ansiNames.contains ['#', r, g, b] = false := by
+    cases hc : T.ansiNames.contains ['#', r, g, b] with
+    | false => rfl
+    | true =>
+      have hm : ['#', r, g, b] ∈ T.ansiNames := by simpa using hc
+      exact absurd rfl (hS.nameWord _ hm).2.2.2.2.2
+  have hn2 : T.ansiNames.contains [r, g, b] = false := by
+    cases hc : T.ansiNames.contains [r, g, b] with
+    | false => rfl
+    | true =>
+      have hm : [r, g, b] ∈ T.ansiNames := by simpa using hc
+      exact absurd rfl (hN.1 _ hm)
+  have ha1 := lookup_hash_none T.aliases [r, g, b] (fun kv hkv => (hS.aliasKeys kv hkv).1)
+  have hlow : lower ['#', r, g, b] = '#' :: lower [r, g, b] := by
+    simp [lower, lowerChar]
+  have ha2 := lookup_hash_none T.named (lower [r, g, b]) hS.namedKeys
+  have ha3 : lookup [r, g, b] T.aliases = none := by
+    apply lookup_eq_none
+    intro kv hkv heq
+    exact hN.2 kv hkv (by rw [heq]; rfl)
+  have hall : [r, g, b].all isHexDigit = true := by
+    simp [isHexDigit_iff, hr, hg, hb]
+  unfold parseColor
+  simp only [hn1, Bool.false_eq_true, if_false, ha1, hlow, ha2]
+  have hn2' : ¬[r, g, b] ∈ T.ansiNames := by simpa using hn2
+  simp [ha3, hn2', hall]
+
+theorem gen_noShortNames : NoShortNames G := by decide +kernel
+
+/-- **C19-aj.**  On the tables of /repo: `parse_color('#rgb') = 'rrggbb'` for ALL hex digits. -/
+theorem parseColor_hex3 (r g b : Char)
+    (hr : (hexVal? r).isSome = true) (hg : (hexVal? g).isSome = true) (hb : (hexVal? b).isSome = true) :
+    parseColor G ['#', r, g, b] = some [r, r, g, g, b, b] :=
+  parseColor_hex3_any G gen_styleOk gen_noShortNames r g b hr hg hb
+
+example : parseColor G "#abc".toList = some "aabbcc".toList := by decide +kernel
+
 /-! ## 12. every Attrs field is encoded and decoded -/
 
 /-- **C19-ag.**  On the tables extracted from the CURRENT source: every flag field of `Attrs` has a
